@@ -14,7 +14,7 @@ use std::cell::RefCell;
 use std::rc::Rc;
 
 const SIGMA: [&str; 14] = ["a", " ", "\"", "#", "\\", "$", "{", "}", "%", "\n", "\r", "=", "\t", "é"];
-const SPECIAL: [&str; 15] = ["${v}", "%{v}", "\\${v}", "${w}", "a b", "\"a b\"", "a  b", "x=y", "and", "or", "not", "(", ")", "true", "false"];
+const SPECIAL: [&str; 18] = ["${v}", "%{v}", "\\${v}", "${w}", "a b", "\"a b\"", "a  b", "x=y", "and", "or", "not", "(", ")", "true", "false", "al", "cap", "p"];
 const WRAPPERS: [&str; 17] = ["direct", "if", "elseif", "while", "not", "alias-stored", "alias-passed", "function", "alias-of-not", "alias-of-not-stored", "alias-stored-then-refused-redefinition", "if-not", "while-not", "not-not", "if-alias", "alias-of-alias", "elseif-after-failed-elseif"];
 
 struct Rig {
@@ -225,8 +225,8 @@ fn class_of(v: &str) -> &'static str {
 
 pub fn bounds(tier: Tier) -> Value {
     match tier {
-        Tier::Quick => json!({"value_len": 3, "alphabet": 14, "special_values": 15, "positions": 2, "wrappers": 17}),
-        Tier::Thorough => json!({"value_len": 4, "alphabet": 14, "special_values": 15, "positions": 2, "wrappers": 17}),
+        Tier::Quick => json!({"value_len": 3, "alphabet": 14, "special_values": 18, "positions": 2, "wrappers": 17}),
+        Tier::Thorough => json!({"value_len": 4, "alphabet": 14, "special_values": 18, "positions": 2, "wrappers": 17}),
     }
 }
 
